@@ -34,7 +34,7 @@ META = {
         "behaviour, ordered external-call log) on random inputs; every source run that is defined must "
         "be reproduced exactly. XdslProofs/C16.lean proves, for all bounds/steps/bodies, the arithmetic "
         "cores on the model XdslModel/Loops.lean: loop = fold over tripCount, range folding by addition "
-        "and by a positive factor, flattening (i = q*N + r), full unrolling incl. zero-trip, scf.for → "
+        "and by a positive factor, flattening (i = q*N + r; what the pass decides and emits — outer bound rounded up to whole outer steps, product of trip counts — is proved equivalent to the nest), full unrolling incl. zero-trip, scf.for → "
         "header/body/exit CFG by loop invariant, hoisting of a pure invariant computation out of a loop "
         "(incl. zero-trip: only for a total op) and out of a conditional. The model's folded bounds, "
         "trip counts, induction values and flatten decisions are compared with what the real passes emit. "
@@ -73,7 +73,7 @@ META = {
         "pure ops incl. divisions; pure scf.if; counting scf.while; affine programs (affine.apply maps of every shape up to 3 dims + 3 symbols); "
         "operand-binding programs (one affine.apply whose map gives every dimension/symbol its own weight, operands a permutation of "
         "distinct-valued arguments; affine.load/store through index-permuting two-result maps on a non-square memref); symref programs "
-        "(straight-line and nested)."
+        "(straight-line and nested; nested also with symbols that have no declaration in the program)."
     ),
     "trusted_base": [
         "reference semantics lean/XdslModel/Sem.lean (+ MiniIR parser) and serialiser harness/vp/miniir.py",
@@ -358,10 +358,11 @@ def only_mod_lowering(text: str, passes: tuple[str, ...], arg_types: list[str], 
 
 
 def flatten_explained(text: str, arg_types: list[str], vec: list[Any]) -> bool | None:
-    """Do the two known arithmetic causes explain a flatten disagreement?  For every perfect nest
-    whose bounds evaluate (constants / function arguments): induction variables used → known cause
-    iff `ub - lb` is positive and not a multiple of the outer step (XdslProofs.C16Flatten.flatten_sound
-    covers the rest); unused → known cause iff the emitted trip count differs from the product
+    """Do the two repaired arithmetic causes (fixed findings; this classifies a regression) explain a
+    flatten disagreement?  For every perfect nest whose bounds evaluate (constants / function
+    arguments): induction variables used → that cause iff `ub - lb` is positive and not a multiple of
+    the outer step (the bound then has to be rounded up: XdslProofs.C16Flatten.flatten_round_sound);
+    unused → that cause iff the trip count of the formerly emitted loop differs from the product
     (flatten_unused_sound).  None = cannot tell (bounds not evaluable)."""
     from xdsl.dialects import arith, scf
 
